@@ -82,11 +82,14 @@ def r07_2_4(chk, P, E):
              '(_seek_helper called) stores vf->pcm_offset after the last _seek_helper call, or delegates to another seek')
     chk.rule('R07.4', 'every such success path also restarts the decoder (vorbis_synthesis_restart) or dumps it '
              '(_decode_clear / rebuilds it) somewhere on the path, or delegates: lapping state from the old position is never kept')
+    # an event performed inside a helper counts: a premise (the stream moved) when the helper may perform it, a
+    # conclusion (position stored, decoder reset) only when the helper performs it on every path
+    mv = k2.s_call('_seek_helper')
     setters = [
-        ('moved', k2.is_call('_seek_helper'), True),
-        ('pos_set', k2.is_call('_seek_helper'), False),
-        ('pos_set', k2.stores_field(VF, 'pcm_offset', ops=None), True),
-        ('fresh', k2.is_call_any(['vorbis_synthesis_restart', '_decode_clear', '_make_decode_ready']), True),
+        ('moved', k2.event(P, mv, 'may'), True),
+        ('pos_set', k2.event(P, mv, 'may'), False),
+        ('pos_set', k2.event(P, k2.s_store(VF, 'pcm_offset'), 'must', dynamic=k2.stores_field(VF, 'pcm_offset', ops=None)), True),
+        ('fresh', k2.event(P, k2.s_call(['vorbis_synthesis_restart', '_decode_clear', '_make_decode_ready']), 'must'), True),
         ('delegated', k2.is_call_any(SEEKS3), True),
     ]
     n = 0
